@@ -398,10 +398,59 @@ def r09_5(ctx: Ctx):
     return obs
 
 
+FACTORY_WIRING = {
+    # factory -> {factory parameter: (class, constructor parameter)}; one line of reason each
+    "get_NBC_sprout": {
+        "gen_dist_factor": ("NBC_Generator", "distance_factor"),  # cut factor of the clustering that proposes candidates
+        "trunc_factor": ("NBC_Generator", "truncation_factor"),
+        "fil_dist_factor": ("NBC_FarEnough", "min_distance_factor"),  # the distance the *filter* enforces
+        "level_limit": ("LevelLimit", "limit"),
+    },
+    "get_simple_sprout": {
+        "far_enough": ("FarEnough", "min_distance"),
+        "level_limit": ("LevelLimit", "limit"),
+    },
+}
+
+
+def r09_6(ctx: Ctx):
+    """R09.6 the shipped factories hand each of their parameters to the constructor parameter it is documented for (the filter threshold is the filter's, not the generator's)."""
+    obs = []
+    for fname, table in FACTORY_WIRING.items():
+        fac = ctx.prog.func("pyhms.sprout.sprout_mechanisms", fname)
+        got = {}
+        for c in body_walk(fac.node):
+            if not isinstance(c, ast.Call):
+                continue
+            ci = ctx.prog.resolve_class_expr(c.func, fac.module)
+            if ci is None:
+                continue
+            init = ctx.prog.lookup_method(ci, "__init__")
+            if init is None:
+                continue
+            pnames = init.params()[1:]
+            for i, a in enumerate(c.args):
+                if isinstance(a, ast.Name) and i < len(pnames):
+                    got.setdefault(a.id, []).append((ci.name, pnames[i]))
+            for k in c.keywords:
+                if isinstance(k.value, ast.Name) and k.arg:
+                    got.setdefault(k.value.id, []).append((ci.name, k.arg))
+        for prm in fac.params():
+            want = table.get(prm)
+            if want is None:
+                obs.append(ctx.ob("R09.6", fac, fac.node, status=INCONCLUSIVE, detail=f"{fname}: parameter `{prm}` is not in the wiring table", construct=f"{fname}:{prm}"))
+                continue
+            uses = got.get(prm, [])
+            ok = uses == [want]
+            obs.append(ctx.ob("R09.6", fac, fac.node, status=OK if ok else VIOLATION, detail=f"{fname}: {prm} -> {want[0]}.{want[1]}" if ok else f"{fname}: parameter `{prm}` is wired to {uses or 'nothing'}; it must configure {want[0]}({want[1]}=...) and only that", construct=f"{fname}:{prm}"))
+    return obs
+
+
 RULES = [
     ("R09.1", r09_1, 7),
     ("R09.2", r09_2, 2),
     ("R09.3", r09_3, 9),
     ("R09.4", r09_4, 2),
     ("R09.5", r09_5, 7),
+    ("R09.6", r09_6, 6),
 ]
